@@ -50,6 +50,25 @@ def to_lists(r):
     return [[[k, list(v)] for k, v in a.items()], [[k, list(v)] for k, v in b.items()]]
 
 
+_VALS = {}
+
+
+def impl_lines(fname, args):
+    """parse_contents on the lines of a file: the answer computed while the file existed, or - when asked again or in
+    another interpreter - a fresh file written and parsed"""
+    key = repr(args)
+    if key in _VALS:
+        return _VALS.pop(key)
+    import tempfile
+    header, lines = args
+    with tempfile.NamedTemporaryFile('w', encoding='utf-8', newline='', suffix='-Contents', delete=False) as f:
+        f.write('\n'.join(lines) + ('\n' if lines else ''))
+    try:
+        return call(lambda: to_lists(contents.parse_contents(f.name, has_header=header)))
+    finally:
+        os.unlink(f.name)
+
+
 class Files:
     def __init__(self, ctx):
         self.dir = ctx.scratch
@@ -150,9 +169,11 @@ def run(ctx):
                 os.unlink(pp)
             reqs.append(('parse_contents_lines', [header, lines]))
             impl_vals[len(reqs) - 1] = r
-    idx = {id(r): i for i, r in enumerate(reqs)}
-    counter = iter(range(len(reqs)))
-    bad = ctx.compare('corr:parse_contents', reqs, lambda fn, args: impl_vals[next(counter)])
+    _VALS.clear()
+    for i, r in enumerate(reqs):
+        _VALS.setdefault(repr(r[1]), impl_vals[i])
+    bad = ctx.compare('corr:parse_contents', reqs, impl_lines)
+    _VALS.clear()
     ctx.notes.append('gzip/plain equality and file decoding are checked by execution only (not modelled)')
 
     fails.sort(key=lambda f: len(f[0][0]))
